@@ -261,7 +261,7 @@ fn u9_arb_choose_index_onto() {
     let one = [t as u8];
     let mut u = if n - 1 >= 256 { Unstructured::new(&two) } else { Unstructured::new(&one) };
     let mut src = GenerationSource::Arbitrary(&mut u);
-    assert!(src.choose_index(n) == t, "[C12] an alternative cannot be selected by any fuzzer input");
+    assert!(src.choose_index(n) == t, "[C12?] the fixed witness input (big-endian index bytes) does not select the alternative");
 }
 /// the same for gen_range(0, n): a maintainer may well draw the candidate index with it instead of choose_index
 #[kani::proof]
@@ -275,7 +275,7 @@ fn u9_arb_gen_range_onto() {
     let one = [t as u8];
     let mut u = if n - 1 >= 256 { Unstructured::new(&two) } else { Unstructured::new(&one) };
     let mut src = GenerationSource::Arbitrary(&mut u);
-    assert!(src.gen_range(0, n) == t, "[C12] an alternative cannot be selected by any fuzzer input");
+    assert!(src.gen_range(0, n) == t, "[C12?] the fixed witness input (big-endian index bytes) does not select the alternative");
 }
 /// gen_bool takes both values (framed and unframed pickles for protocol >= 4)
 #[kani::proof]
@@ -286,7 +286,7 @@ fn u9_arb_gen_bool_both() {
     let mut u1 = Unstructured::new(&d1);
     let b0 = GenerationSource::Arbitrary(&mut u0).gen_bool();
     let b1 = GenerationSource::Arbitrary(&mut u1).gen_bool();
-    assert!(b0 != b1, "[C12] the FRAME coin flip is stuck");
+    assert!(b0 != b1, "[C12?] the fixed witness inputs 00 / 01 give the same coin");
 }
 
 // ---- U0: cross-checks of the std specs the Verus shim (contracts/shim.rs) assumes -------------------
